@@ -12,6 +12,12 @@ Engine E1 (histories on real solver objects, judged after every operation).  Enu
           (new=True limits when installed mid-run); Solve under the solver's default termination}
   x cost x start x DE seed [x penalty {none, ramp} on a reduced product].
 
+'Ranges set twice' family (a few hundred executions): SetStrictRanges called a second time with a different box in
+the same mode {tight=True, clip=True, both, default as a control} - before the first Step (constraint installed
+before or after the second call) and between Steps - with a constraint that fits the final box and leaves the
+first one {window clamp of every coordinate, affine tie, pin} x solver x variant; judged by clauses (1)-(3) against
+the box in force (the final one).
+
 Only constraints that are idempotent and map the box into itself are used (solverlab.compatible, mechanical).
 
 Oracle (independent of the library: the constraint is restated as a predicate and cross-checked against a
@@ -53,6 +59,8 @@ def holds(kind, x):
         return (x[1] == 0.5 * x[0] + 0.25) if len(x) > 1 else (x[0] <= 1.0)
     if kind == 'symbolic':
         return x[0] <= x[1] + 1.0
+    if kind == 'window':
+        return all(c03_lab.WINDOW[0] <= v <= c03_lab.WINDOW[1] for v in x)
     raise KeyError(kind)
 
 
@@ -62,6 +70,8 @@ def image(kind, x):
     if kind == 'symbolic':
         f = solverlab.cached('symbolic_con', solverlab.symbolic_con)
         return [float(v) for v in f(list(x))]
+    if kind == 'window':
+        return [float(v) for v in c03_lab.Con3(kind, False)(list(x))]
     return [float(v) for v in solverlab.Con(kind, False)(list(x))]
 
 
@@ -84,7 +94,7 @@ class Oracle(graph.Oracle):
     def __init__(self, lab):
         graph.Oracle.__init__(self, lab)
         cfg = lab.cfg
-        self.st = Settings(dict((k, v) for k, v in cfg.items() if k != 'constraint'))   # box + raw objective only
+        self.st = c03_lab.Settings3(dict((k, v) for k, v in cfg.items() if k != 'constraint'))   # box + raw objective only
         self.cur = cfg.get('constraint')          # constraint symbol in force
         self.install = 'configured' if self.cur else None
         self.from_start = self.cur is not None    # in force from the first iteration and unchanged since
@@ -101,6 +111,9 @@ class Oracle(graph.Oracle):
         # per real iteration: (cost calls so far, stored points, constraint kinds in force so far) - used only to explain a divergence
         self.iters = []
         self.kinds_seen = [split(self.cur)[0]] if self.cur else []
+        self.ranges_reset = 0     # SetStrictRanges operations seen (the 'ranges set twice' family)
+        self.reset_midrun = False
+        self.calls_at_reset = 0
         s = lab.solver
         inner = s._Step
         def probe(*a, **k):
@@ -116,8 +129,11 @@ class Oracle(graph.Oracle):
     def sig(self, clause, op):
         st = self.st
         kind, variant = split(self.cur)
-        return {'clause': clause, 'variant': variant, 'install': self.install,
-                'bounds': 'none' if st.box is None else ('box_as_constraint' if st.bounds_as_constraint() else 'box')}
+        sig = {'clause': clause, 'variant': variant, 'install': self.install,
+               'bounds': 'none' if st.box is None else ('box_as_constraint' if st.bounds_as_constraint() else 'box')}
+        if self.ranges_reset:
+            sig['ranges'] = 'set_again_midrun' if self.reset_midrun else 'set_again_before_first_step'
+        return sig
 
     def after(self, op, outcome, b, a):
         lab, st = self.lab, self.st
@@ -128,6 +144,11 @@ class Oracle(graph.Oracle):
             # The history is judged up to here, counted in the 'abnormal' histogram, and the run is marked not exhaustive.
             self.abnormal = outcome[:3]
             return out
+        if name == 'SetStrictRanges':
+            st.update(op)              # the box in force is the last one set
+            self.ranges_reset += 1
+            self.reset_midrun = self.stepped
+            self.calls_at_reset = b['ncalls']
         if name == 'SetConstraints':
             self.install = ('replaced_midrun' if self.stepped else 'replaced_before_first_step') if self.cur is not None \
                 else ('installed_midrun' if self.stepped else 'installed_before_first_step')
@@ -272,6 +293,89 @@ def schedules(kind, variant, partner, N, KS, RKS, full):
             for g, e in few:
                 out.append(('replace_after_%d/solve_limit' % k, {'constraint': c0}, pre + [['SetEvaluationLimits', g, e, True], ['Solve']]))
     return out
+
+
+def schedules_twice(kind, variant, final, t, c, N):
+    """the strict ranges are set a second time (box `final`, same mode) -> list of (label, cfg overrides, ops)"""
+    con = '%s/%s' % (kind, variant)
+    again = ['SetStrictRanges', final, t, c]
+    return [('ranges_twice_before_first_step/steps', {}, [again, ['SetConstraints', con]] + [['Step']] * N),
+            ('ranges_twice_constraint_first/solve_limit', {'constraint': con, 'limits': [3, None]}, [again, ['Solve']]),
+            ('ranges_twice_after_2/steps', {}, [['Step']] * 2 + [again, ['SetConstraints', con]] + [['Step']] * (N - 2))]
+
+
+def compat_twice(kind, box, dim):
+    """the same mechanical pre-check as solverlab.compatible (grid incl. faces), with the harness-owned map and the boxes of this family"""
+    import itertools
+    lo, hi = c03_lab.box_of3(box, dim)
+    axes = [sorted({l, h, (l + h) / 2.0, l + (h - l) * 0.25, l + (h - l) * 0.9}) for l, h in zip(lo, hi)]
+    for p in itertools.product(*axes):
+        y = image(kind, p)
+        if not inbox(y, (lo, hi)) or image(kind, y) != y:
+            return False
+    return True
+
+
+def leaves(kind, box, dim):
+    """does the constraint move some point of `box` out of `box`? (grid)"""
+    import itertools
+    lo, hi = c03_lab.box_of3(box, dim)
+    axes = [sorted({l, h, (l + h) / 2.0, l + (h - l) * 0.25, l + (h - l) * 0.9}) for l, h in zip(lo, hi)]
+    return any(not inbox(image(kind, p), (lo, hi)) for p in itertools.product(*axes))
+
+
+def specs_twice(ctx):
+    out = []
+    for solver in solverlab.SOLVERS:
+        for kind in ('window', 'tie', 'pin'):
+            for first, final, modes in (('low', 'unit', [(True, None), (None, True), (True, True), (None, None)]),
+                                        ('neg', 'unit', [(None, True)] + ([(True, None), (True, True)] if ctx.thorough else []))):
+                if not compat_twice(kind, final, 2) or not leaves(kind, first, 2):
+                    continue
+                for (t, c) in modes:
+                    for cost, x0 in ([('rosen', [0.8, -0.4]), ('sphere', [3.0, -2.0])] if ctx.thorough else [('rosen', [0.8, -0.4])]):
+                        out.append({'solver': solver, 'dim': 2, 'cost': cost, 'x0': x0, 'box': first, 'tight': t, 'clip': c,
+                                    'kind': kind, 'seed': ctx.seed, 'final': final})
+    return out
+
+
+def shard_twice(item):
+    specs, N = item
+    T = Tally()
+    for spec in specs:
+        kind, final = spec['kind'], spec['final']
+        first = c03_lab.box_of3(spec['box'], spec['dim'])
+        sp = schedules_twice(kind, 'pure', final, spec['tight'], spec['clip'], N)
+        si = schedules_twice(kind, 'inplace', final, spec['tight'], spec['clip'], N)
+        for (label, over_p, ops_p), (_, over_i, ops_i) in zip(sp, si):
+            cfg_p = dict(base_cfg(spec), **over_p)
+            cfg_i = dict(base_cfg(spec), **over_i)
+            lab_p, orc_p = run_one(cfg_p, ops_p, T, label)
+            lab_i, orc_i = run_one(cfg_i, ops_i, T, label)
+            for lab in (lab_p, lab_i):
+                # evidence that the family discriminates: judged evaluations that lie outside the FIRST box
+                n0 = (orc_p if lab is lab_p else orc_i).calls_at_reset
+                outside = sum(1 for x, v in lab.cost.log[n0:] if not inbox(x, first))
+                T.hist('ranges_twice_runs', 'mode(tight,clip)=%r: %s' % ((spec['tight'], spec['clip']),
+                       'some judged evaluation lies outside the first box' if outside else 'all judged evaluations inside the first box'))
+            if len([x for x in T.samples if str(x.get('schedule', '')).startswith('ranges_twice')]) < 1:
+                T.sample({'schedule': label, 'cfg': graph._short(dict(cfg_i, solver=None)), 'solver': spec['solver'], 'ops': compact(ops_i),
+                          'cost_calls_judged': orc_i.calls_judged, 'reports_judged': orc_i.best_judged,
+                          'final_best': list(orc_i.trace[-1][2]), 'final_bestEnergy': orc_i.trace[-1][3]})
+            verdict, det = compare(lab_p, orc_p, lab_i, orc_i)
+            T.count('variant_pairs_compared')
+            if verdict == 'diverged':
+                T.hist('differential', 'diverged')
+                T.violate({'clause': 'pure_and_inplace_variants_diverge', 'solver': spec['solver'],
+                           'install': install_class(label), 'bounds': 'box', 'ranges': 'set_twice'},
+                          {'cfg': cfg_p, 'ops': ops_p, 'twin': cfg_i, 'twin_ops': ops_i},
+                          'the pure and the in-place variant of the %s constraint give different runs: %s | solver=%s cfg=%s ops=%s'
+                          % (kind, det, spec['solver'], graph._short(cfg_p), compact(ops_p)))
+            elif verdict == 'explained':
+                T.hist('differential', 'diverged after the in-place run stored constrained images of non-reported points (not judged) [%s]' % spec['solver'])
+            else:
+                T.hist('differential', 'identical')
+    return T
 
 
 def compat(kind, box, dim):
@@ -474,6 +578,16 @@ def run(ctx):
     ctx.explanation = ('Clause (3) is stricter than the wording of the statement (which asks that (1),(2) hold for both variants, not that the runs coincide); '
                        'it is kept because identical runs are what makes in-place aliasing unobservable, and the one accepted kind of divergence is listed in the differential histogram.')
     ctx.pmap(shard, items)
+    # the 'ranges set twice' family
+    tw = specs_twice(ctx)
+    tw.sort(key=lambda s: -_weight(s))
+    NT = 6
+    nch = max(1, min(len(tw), 32))
+    ctx.bounds['ranges_set_twice'] = {'first->final box': sorted(set('%s->%s' % (s['box'], s['final']) for s in tw)),
+                                      'modes(tight,clip)': sorted(set(str((s['tight'], s['clip'])) for s in tw)),
+                                      'constraint_kinds': sorted(set(s['kind'] for s in tw)), 'base_configurations(pairs)': len(tw),
+                                      'schedules': [l for l, _, _ in schedules_twice('pin', 'pure', 'unit', None, None, NT)], 'steps_per_run': NT}
+    ctx.pmap(shard_twice, [(tw[i::nch], NT) for i in range(nch)])
     ab = ctx.tally.h.get('abnormal')
     if ab:
         ctx.cap('%d histories ended by an exception or the evaluation horizon and were judged only up to that operation: %s'
